@@ -20,6 +20,7 @@ def machineRun (name : String) (n k : Nat) : Option Outcome :=
   | "cotree_copy" => some (Run.cotreeCopy (List.replicate n true) 0 k)
   | "cotree_assign" => some (Run.cotreeAssign 3 (List.replicate n true) 0 k)
   | "dense_copy" => some (Run.denseCopy n (n + 2) 0 k)
+  | "dense_assign_sparse_realloc" => some (Run.denseAssignSparse 3 3 4 0 k)
   | _ => none
 
 def main (_args : List String) : IO UInt32 := do
